@@ -15,6 +15,11 @@ quals = [q for q, c in spec.CONTRACTS.items() if not (c.abstract or c.trusted or
 sel = sys.argv[1:]
 if sel:
     quals = [q for q in quals if any(q.endswith(x) for x in sel)]
+from pyvc import renames  # noqa: E402
+lp = os.path.join(V, "baseline", "locals.json")
+basel = json.load(open(lp)) if (sel and os.path.exists(lp)) else {}
+basel.update(renames.record(src.FUNCS, quals))
+json.dump(dict(sorted(basel.items())), open(lp, "w"), indent=0)
 results = [run.verify_function(q) for q in quals]
 vcs = [vc for r in results for vc in r.vcs]
 covers = [c for r in results for c in r.covers]
